@@ -22,6 +22,7 @@ import CtyModel.Lemmas.StdOblType
 import CtyModel.Lemmas.StdOblTable
 import CtyModel.Lemmas.d11Alloc
 import CtyModel.Lemmas.d11Table
+import CtyModel.Lemmas.d11Total
 import CtyModel.Props.C10
 namespace CtyModel
 namespace C11
@@ -575,6 +576,38 @@ theorem setproduct_nonempty_counterexample :
 
 theorem setProductEmptyOnlyIfSomeEmpty_false : ¬ SetProductEmptyOnlyIfSomeEmpty := fun h =>
   h [256, 256, 256, 256, 256, 256, 256, 256] (by decide) setproduct_nonempty_counterexample.1
+
+
+/-! ## Clause "never a Go panic and never an error reporting an internal panic", per function
+
+`call_total_of_obligations` instantiated: all four hypotheses are PROVED for the modelled callbacks
+of the function, over every argument list the protocol may hand them (null, unknown, marked,
+dynamically typed arguments and arguments of unrelated types included — the protocol's answers to
+those are part of the statement). -/
+
+/-- **`hasindex` is total** (collection.go `HasIndexFunc`, as modelled in Stdlib/Collection.lean and
+compared with the code by the `std.call` correspondence): `HasIndexFunc.Call(args)` on well-formed
+values — ANY number of them, of any type, null, unknown, marked or dynamically typed — returns a
+value or an ordinary error: never a Go panic, never a `PanicError`. -/
+theorem call_total_hasindex (nfc : String → Bool) (args : List Value) (hargs : ∀ a ∈ args, a.WF nfc = true) :
+    (∀ w, (call Stdlib.hasIndexSpec Stdlib.hasIndexType Stdlib.hasIndexImpl args).1 ≠ .panic w) ∧
+    (∀ w, (call Stdlib.hasIndexSpec Stdlib.hasIndexType Stdlib.hasIndexImpl args).1 ≠ .err (.panicError w)) :=
+  Stdlib.call_total_hasIndex args hargs
+
+/-- … and the model's parameter declarations are those of the regenerated table -/
+theorem hasindex_spec_is_table_entry :
+    (Std.find? "HasIndexFunc").map (fun s =>
+      s.params.map (fun p => [p.ty.equals .dyn, p.allowNull, p.allowUnknown, p.allowDynamic, p.allowMarked]) ++ [[s.varParam.isSome]]) =
+    some (Stdlib.hasIndexSpec.params.map (fun p => [p.ty.equals .dyn, p.allowNull, p.allowUnknown, p.allowDynamic, p.allowMarked]) ++
+      [[Stdlib.hasIndexSpec.varParam.isSome]]) := by decide
+
+/-- the hypothesis is met by non-trivial argument lists: a list and an index, and a marked unknown
+next to a null (which the protocol refuses without reaching the callbacks) -/
+example : ∀ a ∈ [(⟨.list .string, .seq [.s "a"]⟩ : Value), Value.intVal 0], a.WF (fun _ => true) = true := by decide
+example : (match (call Stdlib.hasIndexSpec Stdlib.hasIndexType Stdlib.hasIndexImpl
+    [(⟨.list .string, .seq [.s "a"]⟩ : Value), Value.intVal 0]).1 with
+    | .ok v => (match v.v with | .b true => true | _ => false)
+    | _ => false) = true := by decide
 
 /-! ### the hypotheses are satisfiable -/
 
